@@ -10,6 +10,7 @@ import (
 	"context"
 	"errors"
 	"fmt"
+	"github.com/ethereum/go-ethereum/common"
 	"math/big"
 	"regexp"
 	"sort"
@@ -37,9 +38,26 @@ type depositProxy struct {
 	store.AccountStore
 	mu       sync.Mutex
 	deposits map[store.Account]*big.Int
+	locked   map[store.Account]bool // deposit withdrawal pending on chain: the contract proxy answers with ErrDepositTimelocked
+}
+
+func (p *depositProxy) isLocked(a store.Account) bool {
+	p.mu.Lock()
+	defer p.mu.Unlock()
+	return p.locked[a]
+}
+
+// canonAccount is the spelling under which a deposit is held: like the contract proxy (and the chain), the overlay
+// knows one deposit per address however the wallet spells it towards the pool.
+func canonAccount(a store.Account) store.Account {
+	if !common.IsHexAddress(string(a)) {
+		return a
+	}
+	return store.Account(common.HexToAddress(string(a)).Hex())
 }
 
 func (p *depositProxy) deposit(a store.Account) *big.Int {
+	a = canonAccount(a)
 	p.mu.Lock()
 	defer p.mu.Unlock()
 	if d, ok := p.deposits[a]; ok {
@@ -49,6 +67,7 @@ func (p *depositProxy) deposit(a store.Account) *big.Int {
 }
 
 func (p *depositProxy) setDeposit(a store.Account, v *big.Int) {
+	a = canonAccount(a)
 	p.mu.Lock()
 	defer p.mu.Unlock()
 	p.deposits[a] = new(big.Int).Set(v)
@@ -62,6 +81,9 @@ func (p *depositProxy) GetNodeBalance(id store.NodeID) (store.Balance, error) {
 	if len(b.Account) == 0 {
 		return b, nil
 	}
+	if p.isLocked(b.Account) {
+		return b, payment.ErrDepositTimelocked
+	}
 	b.Deposit = *p.deposit(b.Account)
 	return b, nil
 }
@@ -70,6 +92,9 @@ func (p *depositProxy) GetAccountBalance(a store.Account) (store.Balance, error)
 	b, err := p.AccountStore.GetAccountBalance(a)
 	if err != nil {
 		return b, err
+	}
+	if p.isLocked(a) {
+		return b, payment.ErrDepositTimelocked
 	}
 	b.Deposit = *p.deposit(a)
 	return b, nil
